@@ -22,6 +22,8 @@ def requests():
         Request(ML, fn=["stir::apply_.*", "stir::make_fan_data_remove_gaps_help", "stir::set_fan_data_add_gaps_help"], files=["/repo/src/buildblock/ML_norm.cxx"]),
         Request(ML, fn=["stir::(FanProjData|GeoData3D|BlockData3D|DetPairData)::.*"], files=["/repo/src/buildblock/ML_norm.cxx"]),
         Request(ML, fn=["stir::iterate_efficiencies"], files=["/repo/src/buildblock/ML_norm.cxx"]),
+        Request(ML, fn=["stir::get_fan_info"], files=["/repo/src/buildblock/ML_norm.cxx"]),
+        Request("src/recon_buildblock/ML_estimate_component_based_normalisation.cxx", fn=["stir::ML_estimate_component_based_normalisation"], files=["/repo/src/recon_buildblock/ML_estimate_component_based_normalisation.cxx"]),
     ]
 
 
@@ -346,6 +348,68 @@ def rule_d_efficiencies_updated_in_place(ctx, fns):
     return n
 
 
+def rule_e_fan_covers_all_tangential_positions(ctx, fns):
+    """The fan of a detector holds fan_size = 2*h + 1 partners, the tangential positions -h..h.  Converting projection data to fan data
+    and back can only be lossless if every tangential position of the data lies in that range: h >= max_tangential_pos_num and
+    h >= -min_tangential_pos_num, i.e. h is the LARGER of the two, not the smaller (they differ for an even number of positions)."""
+    RULE = "C20.e-fan-covers-all-tangential-positions"
+    n = 0
+    for f in fns:
+        if f.short != "get_fan_info" or f.body is None:
+            continue
+        from engine.algebra import LocalDefs
+
+        defs = LocalDefs(f)
+        for c in f.calls():
+            if (c.callee or "") in ("std::min", "std::max") and len(c.call_args()) == 2:
+                ks = sorted(key(a.strip(), True) for a in c.call_args())
+                if any("get_max_tangential_pos_num()" in k for k in ks) and any("get_min_tangential_pos_num()" in k for k in ks):
+                    ok = c.callee == "std::max"
+                    ctx.ob(RULE, f.qn, "half-fan-size", ok, c.where(), "half the fan size is the larger of max_tangential_pos_num and -min_tangential_pos_num" if ok else "half the fan size is min(max_tangential_pos_num, -min_tangential_pos_num): for data with an even number of tangential positions (-N/2 .. N/2-1) the bins at the lowest tangential position have no place in the fan and come back as 0")
+                    n += 1
+        break
+    return n
+
+
+def rule_f_format_strings_well_formed(ctx, fns):
+    """boost::format throws for an ill-formed format string or a wrong number of arguments: in the ML estimation routine every
+    boost::format("...") % a % b ... has as many arguments as its highest %N% directive, and every directive is closed."""
+    RULE = "C20.f-format-strings-well-formed"
+    n = 0
+    seen = set()
+    for f in fns:
+        if f.body is None or (f.file, f.body.line) in seen:
+            continue
+        seen.add((f.file, f.body.line))
+        for c in f.walk():
+            if not (c.k in ("CXXConstructExpr", "CXXTemporaryObjectExpr", "CXXFunctionalCastExpr", "Cast") and "basic_format" in (c.type or "") + (c.callee or "")):
+                continue
+            lit = [m.get("v") for m in c.walk() if m.k == "StringLiteral"]
+            if not lit or (c.line, lit[0]) in seen:
+                continue
+            seen.add((c.line, lit[0]))
+            fmt = lit[0]
+            # count the operands of the % chain above this construction
+            top, nargs = c, 0
+            for a in c.ancestors():
+                if a.k == "CXXOperatorCallExpr" and a.op == "%" and a.c and any(x is top for x in a.c[0].walk()):
+                    nargs += 1
+                    top = a
+                elif a.k in ("Cast", "ExprWithCleanups", "MaterializeTemporaryExpr", "CXXBindTemporaryExpr", "ImplicitCastExpr"):
+                    continue
+                else:
+                    break
+            body = fmt.replace("%%", "")
+            closed = re.findall(r"%(\d+)%", body)
+            rest = re.sub(r"%\d+%", "", body)
+            dangling = "%" in rest and not re.search(r"%[-+ #0]*\d*(\.\d+)?[a-zA-Z]", rest)
+            want = max([int(x) for x in closed] or [0])
+            ok = not dangling and (not closed or want == nargs)
+            ctx.ob(RULE, f.qn, "format@%d" % c.line, ok, c.where(), "`%s` with %d argument(s)" % (fmt[:50], nargs) if ok else "format string `%s` is ill-formed or has %d argument(s) for %d directive(s): boost::format throws when this line is reached" % (fmt, nargs, want))
+            n += 1
+    return n
+
+
 def run(ctx):
     ctx.explanation = (
         "Decides for ML_norm: (a) in every apply_*(data, factors, apply) the two branches on `apply` update the same element with *= "
@@ -381,3 +445,10 @@ def run(ctx):
         return
     rule_d_efficiencies_updated_in_place(ctx, u3.functions)
     ctx.require_count("C20.d-efficiencies-updated-in-place", 3)
+    u4, u5 = ctx.ex.get(reqs[3]), ctx.ex.get(reqs[4])
+    if u4 is not None:
+        rule_e_fan_covers_all_tangential_positions(ctx, u4.functions)
+        ctx.require_count("C20.e-fan-covers-all-tangential-positions", 1)
+    if u5 is not None:
+        rule_f_format_strings_well_formed(ctx, u5.functions)
+        ctx.require_count("C20.f-format-strings-well-formed", 4)
